@@ -554,6 +554,10 @@ func (c *FnCtx) evalSpecBuiltin(x *ast.CallExpr, fobj *types.Func, st *State) st
 			as = append(as, c.eval(a, st))
 		}
 		return app(fn, as...)
+	case "V_distinctbase":
+		// two slices that do not share a backing array (a nil slice shares with nothing)
+		a, b := c.eval(x.Args[0], st), c.eval(x.Args[1], st)
+		return or(eq("(sbase "+a+")", "0"), eq("(sbase "+b+")", "0"), not(eq("(sbase "+a+")", "(sbase "+b+")")))
 	case "V_comparable":
 		// the dynamic type of an interface value supports == (nil always does)
 		v := c.convertTo(c.eval(x.Args[0], st), c.typeOf(x.Args[0]), types.NewInterfaceType(nil, nil), st)
